@@ -34,7 +34,7 @@ BRANCHES = [
 class C11(Prop):
     id = "C11"
     title = "heart_beat runs once per interval per enabled object; faults stay local"
-    lean_modules = ["NV.C11.Props", "NV.C11.Witness", "NV.C11.Search", "NV.C11.Trace", "NV.C11.Negative"]
+    lean_modules = ["NV.C11.Props", "NV.C11.Witness", "NV.C11.Search", "NV.C11.Trace", "NV.C11.Period", "NV.C11.Negative"]
     theorems = [
         "NV.C11.model_satisfies_spec",
         "NV.C11.hb_index_in_bounds",
@@ -100,6 +100,12 @@ class C11(Prop):
         "NV.C11.callAfter_ref",
         "NV.C11.finish_ref",
         "NV.C11.tick_eq_ref",
+        "NV.C11.runRound_eq",
+        "NV.C11.quiet_body",
+        "NV.C11.quiet_round",
+        "NV.C11.quiet_ticks",
+        "NV.C11.missed_beat_rejected",
+        "NV.C11.serveN_period",
         "NV.C11.quiet_step",
         "NV.C11.accepted_quiet_when_off",
         "NV.C11.judge_ok_implies_quiet_when_off",
